@@ -334,3 +334,27 @@ def fold_text(ctx, f, expr, env=None):
     if not isinstance(v, str):
         raise AnalysisError('pattern in %s does not fold to text: %s' % (f.qualname, ast.unparse(expr)[:60]))
     return v
+
+
+def falsy_override_sites(func):
+    """[(node, param, expr)] where an optional argument of `func` (default None) is merged with a configured value by TRUTHINESS
+    (`p or self.config[...]`, `self.config[...] if not p else p`): an explicit False / 0 / '' of the caller is overridden by the configuration"""
+    out = []
+    a = func.node.args
+    pos = a.posonlyargs + a.args
+    defaults = dict(zip([x.arg for x in pos[len(pos) - len(a.defaults):]], a.defaults))
+    defaults.update({k.arg: d for k, d in zip(a.kwonlyargs, a.kw_defaults) if d is not None})
+    optional = {k for k, d in defaults.items() if isinstance(d, ast.Constant) and d.value is None}
+
+    def reads_config(e):
+        return any(isinstance(x, ast.Attribute) and x.attr == 'config' for x in ast.walk(e))
+    for x in ast.walk(func.node):
+        if isinstance(x, ast.BoolOp) and isinstance(x.op, ast.Or) and isinstance(x.values[0], ast.Name) and x.values[0].id in optional and any(reads_config(v) for v in x.values[1:]):
+            out.append((x, x.values[0].id, x))
+        if isinstance(x, ast.IfExp):
+            t = x.test
+            neg = isinstance(t, ast.UnaryOp) and isinstance(t.op, ast.Not)
+            tn = t.operand if neg else t
+            if isinstance(tn, ast.Name) and tn.id in optional and (reads_config(x.body) or reads_config(x.orelse)):
+                out.append((x, tn.id, x))
+    return out
